@@ -18,6 +18,9 @@
            10 Page {tag, fill: [u8; 4999]}  zeroize -> all zero, DEFAULT = default() = all zero
            11 Cnt(u8)      zeroize -> x + 1 (counts its wipes: not idempotent), DEFAULT = default() = 0
            13 Lv(u8)       zeroize -> 0,             DEFAULT = default() = 50   (Copy + Default plain data)
+           14 K8 {id: u64, s: u64}  as Keep with machine-word fields (alignment 8); 15 Dz(u8): DefaultIsZeroes with
+              Default = 50: zeroize -> 50, DEFAULT = default() = 50
+           op 6: as op 5 with the array in a Box and zeroize() called on the box
            op 5: as op 0, with `arr.zeroize()` written in method-call syntax on a concrete array type
            element code: little-endian packing of the fields (u16 fields: a + 65536 b;
            byte arrays: b0 + 256 b1 + 65536 b2)
@@ -26,12 +29,13 @@ From GA Require Import Base Codec ZeroDefault.
 Local Open Scope Z_scope.
 
 Definition zero_of (ty : Z) (x : Z) : Z :=
-  if (ty =? 5) || (ty =? 8) then x mod 65536 else if ty =? 9 then 255
+  if (ty =? 5) || (ty =? 8) || (ty =? 14) then x mod 65536 else if ty =? 9 then 255 else if ty =? 15 then 50
   else if ty =? 11 then (x + 1) mod 256 else 0.
 
 Definition default_of (ty : Z) : Z :=
   if ty =? 4 then 7 + 9 * 65536
-  else if (ty =? 5) || (ty =? 8) then 3 + 5 * 65536
+  else if (ty =? 5) || (ty =? 8) || (ty =? 14) then 3 + 5 * 65536
+  else if ty =? 15 then 50
   else if ty =? 6 then 90
   else if ty =? 13 then 50
   else if ty =? 7 then 90 + 90 * 256 + 90 * 65536
@@ -43,7 +47,7 @@ Definition run_c19 (case : list Z) : list Z :=
     let '(dz, prior) := take_list (znat nd) rest in
     let ds := map (fun z => negb (z =? 0)) dz in
     let n := Z.of_nat (val ds) in
-    if (op =? 0) || (op =? 5) then
+    if (op =? 0) || (op =? 5) || (op =? 6) then
       match fill ds prior with
       | Some (t, []) =>
         match zeroize_arr (zero_of ty) ds t with
